@@ -86,6 +86,7 @@ type Regex struct {
 	engine  *meta.Engine
 	pattern string
 	longest bool // if true, prefer leftmost-longest match (POSIX semantics)
+	posix   bool // compiled by CompilePOSIX: pattern is parsed with syntax.POSIX
 }
 
 // Regexp is an alias for Regex to provide drop-in compatibility with stdlib regexp.
@@ -147,10 +148,17 @@ func MustCompile(pattern string) *Regex {
 // that early regular expression implementations used and that POSIX
 // specifies.
 func CompilePOSIX(pattern string) (*Regex, error) {
-	re, err := Compile(pattern)
+	// POSIX ERE syntax: no Perl classes or flags, ^ and $ are line anchors,
+	// negated classes do not match newline (as regexp.CompilePOSIX).
+	ast, err := syntax.Parse(pattern, syntax.POSIX)
+	if err != nil {
+		return nil, &meta.CompileError{Pattern: pattern, Err: err}
+	}
+	engine, err := meta.CompileRegexp(ast, meta.DefaultConfig())
 	if err != nil {
 		return nil, err
 	}
+	re := &Regex{engine: engine, pattern: pattern, posix: true}
 	re.Longest()
 	return re, nil
 }
@@ -483,7 +491,11 @@ func (r *Regex) Longest() {
 //	prefix2, complete2 := re2.LiteralPrefix()
 //	// prefix2 = "Hello", complete2 = true
 func (r *Regex) LiteralPrefix() (prefix string, complete bool) {
-	re, err := syntax.Parse(r.pattern, syntax.Perl)
+	flags := syntax.Perl
+	if r.posix {
+		flags = syntax.POSIX
+	}
+	re, err := syntax.Parse(r.pattern, flags)
 	if err != nil {
 		return "", false
 	}
@@ -1650,7 +1662,11 @@ func (r *Regex) Copy() *Regex {
 	// Create a new Regex with the same pattern
 	// Note: This re-compiles the pattern, which is slightly slower than
 	// sharing the internal engine, but ensures complete independence.
-	re, err := Compile(r.pattern)
+	compile := Compile
+	if r.posix {
+		compile = CompilePOSIX
+	}
+	re, err := compile(r.pattern)
 	if err != nil {
 		// This should never happen since the pattern was already compiled
 		return nil
